@@ -4,4 +4,18 @@ StreamA == <<"x", "x", "N", "x", "x", "N">>      \* "ab\ncd\n"
 StreamB == <<"x", "x", "N", "x", "x">>           \* "ab\ncd": last line without newline
 StreamC == <<"N", "x", "N">>                     \* starts with an empty line
 StreamD == <<>>                                  \* the program writes nothing
+
+\* Witnesses against vacuity (see MC_Session / harness/witness.py): Never_X must be reported violated
+Reach_ErrClosedEarly  == child = "running" /\ ~childEnd                       \* the program closed its stderr and lingers
+Reach_ExitBeforeRead  == child = "exited" /\ pipe # <<>>                      \* it exits before its output was read
+Reach_StatusBeforeEof == waiter = "stored" /\ ~readerDone                     \* the status is known while reading goes on
+Reach_Unterminated    == ~readerDone /\ rbuf # <<>> /\ pipe = <<>> /\ written = Len(Stream)   \* a rest without newline awaits end of file
+Reach_MidLineSplit    == rbuf # <<>> /\ pipe # <<>> /\ Head(pipe) # NL         \* a line arrives in two reads
+Reach_Returned99      == ret = 99                                            \* the status that equals the tool's initial value
+Never_ErrClosedEarly == ~Reach_ErrClosedEarly
+Never_ExitBeforeRead == ~Reach_ExitBeforeRead
+Never_StatusBeforeEof == ~Reach_StatusBeforeEof
+Never_Unterminated == ~Reach_Unterminated
+Never_MidLineSplit == ~Reach_MidLineSplit
+Never_Returned99 == ~Reach_Returned99
 =============================================================================
